@@ -128,6 +128,32 @@ def h_pexpr(c):
     return r
 
 
+def h_preuse(c):
+    """a straight-line program over shared LPoly objects: literals are built once, every operation takes earlier objects by
+    index and appends its result; returns all results and the final state of the literals (operands must not be modified)"""
+    from pyqsp.LPoly import LPoly, LAlg
+    objs = [LPoly(dec(l[1]), l[0]) for l in c["lits"]]
+    if c.get("alg"):      # pairs of literals become algebra elements
+        objs = [LAlg(objs[2 * k], objs[2 * k + 1]) for k in range(len(objs) // 2)]
+    nlit = len(objs)
+    for op, i, j in c["ops"]:
+        a, b = objs[i], objs[j]
+        if op == "add":
+            objs.append(a + b)
+        elif op == "sub":
+            objs.append(a - b)
+        elif op == "mul":
+            objs.append(a * b)
+        elif op == "neg":
+            objs.append(-a)
+        elif op == "inv":
+            objs.append(~a)
+        else:
+            raise RuntimeError("bad op " + op)
+    enc1 = enc_lalg if c.get("alg") else enc_lpoly
+    return {"results": [enc1(o) for o in objs[nlit:]], "lits_after": [enc1(o) for o in objs[:nlit]]}
+
+
 def h_gexpr(c):
     from pyqsp.LPoly import LAlg, LPoly
     g = ev_gexpr(c["e"])
@@ -231,7 +257,7 @@ def h_palias(c):
     return {"changed": changed, "nleaves": len(leaves)}
 
 
-HANDLERS = {"pexpr": h_pexpr, "gexpr": h_gexpr, "constants": h_constants, "from_angles": h_from_angles,
+HANDLERS = {"pexpr": h_pexpr, "preuse": h_preuse, "gexpr": h_gexpr, "constants": h_constants, "from_angles": h_from_angles,
             "readout_angle": h_readout_angle, "readout_lr": h_readout_lr, "palias": h_palias}
 
 try:
